@@ -32,6 +32,21 @@ Theorem C20_data_exact : forall c bkt fuel (objs : gstore) r h (d0 : bytes) p0 r
 Proof. exact data_exact. Qed.
 Print Assumptions C20_data_exact.
 
+(* Fs.OpenFile(name, O_RDWR) on an existing object establishes the hypotheses of C20_data_exact (fresh
+   resource, nothing pending, position 0, writable) and leaves the bucket as it was; after the closing
+   of C20_data_exact the resource is again without reader and writer, so a reopen (which may reuse the
+   cached resource) starts from the same situation: "closes and reopens". *)
+Theorem C20_open_establishes_session : forall bkt g name path (d : bytes),
+  norm_name name = name -> name <> [] -> split_name name = (bkt, path) -> path <> [] ->
+  alist_get name (g_raw g) = None -> alist_get path (g_objs g) = Some d ->
+  exists g' h r,
+    fs_open_file bkt g name o_rdwr = (g', inr h) /\ g_objs g' = g_objs g /\
+    nth_error (g_res g') (h_res h) = Some r /\
+    rvalid bkt r /\ r_reader r = None /\ r_writer r = None /\ r_path r = path /\
+    h_closed h = false /\ h_off h = 0 /\ (h_flags h =? o_rdonly) = false.
+Proof. exact open_establishes_session. Qed.
+Print Assumptions C20_open_establishes_session.
+
 (* A name that is not itself an object is a folder exactly when objects exist under it
    (Stat / newFileInfo; prefix-free names: prefix_free_at). *)
 Theorem C20_folder_iff_objects_below : forall bkt (objs : gstore) name path,
